@@ -385,6 +385,32 @@ PtrAssignDecided(l, r) ==
   /\ ~((IsVoid(l.to) /\ r.to.k = "arr" /\ QualsOf(r.to) # {}) \/ (IsVoid(r.to) /\ l.to.k = "arr" /\ QualsOf(l.to) # {}))
   /\ ~((IsVoid(l.to) /\ r.to.k = "fn") \/ (IsVoid(r.to) /\ l.to.k = "fn"))
 
+(* Audit exception marker: gcc 12's comptypes replaces a complete enum by its underlying integer type and   *)
+(* thereby drops the enum's qualifiers, so `const enum eu` and `const unsigned` (6.7.3p10: compatible) compare *)
+(* unequal there.  True when an aligned position pairs a QUALIFIED enum with a non-enum type.                  *)
+RECURSIVE QualEnumMeetsInt(_, _)
+QualEnumMeetsInt(t1, t2) ==
+  IF t1.k = "enum" /\ t2.k # "enum" THEN t1.q # {}
+  ELSE IF t2.k = "enum" /\ t1.k # "enum" THEN t2.q # {}
+  ELSE IF t1.k # t2.k THEN FALSE
+  ELSE IF t1.k = "ptr" THEN QualEnumMeetsInt(t1.to, t2.to)
+  ELSE IF t1.k = "arr" THEN QualEnumMeetsInt(t1.of, t2.of)
+  ELSE IF t1.k = "fn" THEN QualEnumMeetsInt(t1.ret, t2.ret) \/
+       (Len(t1.ps) = Len(t2.ps) /\ \E i \in 1..Len(t1.ps) : QualEnumMeetsInt(AdjustParam(t1.ps[i]), AdjustParam(t2.ps[i])))
+  ELSE FALSE
+
+(* ------------------------------------------------------------------------ *)
+(* Association lists of the generic selections used as observation device      *)
+(* (props/c05.py): G1 = every basic arithmetic type, G2 = one enum per          *)
+(* compatible integer type; Twins = a second enum per compatible type, used     *)
+(* to tell an enumerated type from its compatible integer type.                 *)
+G1 == <<"bool", "char", "schar", "uchar", "short", "ushort", "int", "uint", "long", "ulong", "llong", "ullong",
+        "float", "double", "ldouble">>
+G2 == <<"eu", "es", "eul", "el", "efs", "efuc">>
+Twins == <<"eu2", "es2", "eul2">>
+G1Types == [i \in 1..Len(G1) |-> B(G1[i])]
+G2Types == [i \in 1..Len(G2) |-> En(G2[i])]
+
 (* ------------------------------------------------------------------------ *)
 (* Canonical names (JSON side: see harness/props/c05.py for the C spelling)   *)
 QName(q) == (IF "const" \in q THEN "const " ELSE "") \o (IF "volatile" \in q THEN "volatile " ELSE "")
